@@ -19,12 +19,13 @@ PROBE = "ls -l /proc/$$/fd | cat > obs/%(s)s.fds; "
 
 class Step:
     def __init__(self, name, body, outs=None, ins=(), oo=(), probe=False, rsp=None, want="ok",
-                 note="", ntok=0, tail=0, pool="", desc=None, msvc=False, depfile="", err_tok=False):
+                 note="", ntok=0, tail=0, pool="", desc=None, msvc=False, depfile="", err_tok=False, hide=False):
         self.name = name
         self.outs = outs if outs is not None else [name + ".out"]
         self.ins = list(ins); self.oo = list(oo)
         self.probe = probe; self.rsp = rsp; self.want = want; self.note = note
         self.ntok = ntok; self.tail = tail; self.pool = pool; self.msvc = msvc; self.depfile = depfile
+        self.hide = hide
         self.desc = desc if desc is not None else "STEP-%s" % name
         pre = PRELUDE % {"s": name}
         if probe:
@@ -59,6 +60,8 @@ def manifest(steps, pools=(), builddir=None):
             out.append("  deps = msvc")
         if s.depfile:
             out.append("  depfile = %s" % s.depfile)
+        if s.hide:
+            out.append("  hide_success = 1")
         b = "build %s: r%d %s" % (" ".join(s.outs), i, " ".join(s.ins))
         if s.oo:
             b += " || " + " ".join(s.oo)
@@ -114,7 +117,74 @@ def parse_tokens(out, nsteps):
         last[st] = (no, m.end())
     return runs, last
 
-def observe(sdir, steps, out, j, events, wantexit, exit, wantran=None):
+SUMRAN = re.compile(rb"n2: ran (\d+) tasks?, now up to date\n")
+NOTE = re.compile(rb"signal \d+|interrupted")
+
+def console_items(out, steps, verbose=False):
+    """Cuts n2's captured output into the items of the console protocol (ExecObs.Con): purely
+    lexical, no judgement."""
+    msg = {}
+    for s in steps:
+        bm = s.desc if s.desc else s.cmd            # progress::build_message
+        started = s.cmd if verbose else bm          # what task_started prints
+        if started != bm:
+            msg[bm.encode() + b"\n"] = ["hdr", s.name]
+        msg[started.encode() + b"\n"] = ["msg", s.name]
+        msg[b"failed: " + bm.encode() + b"\n"] = ["failed", s.name]
+        msg[b"interrupted: " + bm.encode() + b"\n"] = ["intr", s.name]
+    keys = sorted(msg, key=len, reverse=True)
+    items = []; p = 0; n = len(out)
+    while p < n:
+        m = TOK.match(out, p)
+        if m:
+            st = int(m.group(1)); first = last = int(m.group(2)); p = m.end()
+            while True:
+                m2 = TOK.match(out, p)
+                if m2 and int(m2.group(1)) == st and int(m2.group(2)) == last + 1:
+                    last += 1; p = m2.end()
+                else:
+                    break
+            tail = 0
+            want_tail = steps[st].tail if st < len(steps) else 0
+            while tail < want_tail and p < n and out[p:p + 1] == b"#":
+                tail += 1; p += 1
+            items.append(["pay", steps[st].name if st < len(steps) else "?", first, last, tail])
+            continue
+        if out[p:p + 1] == b"#" and items and items[-1][0] in ("msg", "hdr", "failed", "intr"):
+            # a payload without a complete token: only the tail bytes
+            st = [s for s in steps if s.name == items[-1][1]]
+            if st and st[0].ntok == 0 and st[0].tail > 0:
+                tail = 0
+                while tail < st[0].tail and out[p:p + 1] == b"#":
+                    tail += 1; p += 1
+                items.append(["pay", st[0].name, 0, -1, tail]); continue
+        hit = None
+        for k in keys:
+            if out.startswith(k, p):
+                hit = k; break
+        if hit:
+            items.append(list(msg[hit])); p += len(hit); continue
+        if out.startswith(b"n2: no work to do\n", p):
+            items.append(["sum", "nowork", 0]); p += len(b"n2: no work to do\n"); continue
+        m = SUMRAN.match(out, p)
+        if m:
+            items.append(["sum", "ran", int(m.group(1))]); p = m.end(); continue
+        m = NOTE.match(out, p)
+        if m and items and items[-1][0] in ("pay", "failed", "intr"):
+            items.append(["note", m.group(0).decode()]); p = m.end(); continue
+        e = out.find(b"\n", p)
+        e = n if e < 0 else e + 1
+        line = out[p:e]
+        if line.startswith(b"n2: error: "):
+            items.append(["err", line.decode("utf-8", "replace").strip()])
+        elif line.startswith(b"#") and items and items[-1][0] == "pay":
+            items.append(["other", "tail bytes beyond the payload"])
+        else:
+            items.append(["other", line.decode("utf-8", "replace")[:200]])
+        p = e
+    return items
+
+def observe(sdir, steps, out, j, events, wantexit, exit, wantran=None, verbose=False, console=True):
     """Turns obs files and n2's output into events."""
     ran = []
     intr_seen = False
@@ -153,7 +223,9 @@ def observe(sdir, steps, out, j, events, wantexit, exit, wantran=None):
             end = last.get(no, (0, 0))[1]
             tailok = out[end:end + s.tail] == b"#" * s.tail and out[end + s.tail:end + s.tail + 1] != b"#"
         foreign = 0
-        events.append({"e": "xout", "step": s.name, "ntok": s.ntok, "runs": runs.get(no, []),
+        # hide_success: the output of a successful command is not shown
+        shown_ntok = 0 if (s.hide and s.want == "ok") else s.ntok
+        events.append({"e": "xout", "step": s.name, "ntok": shown_ntok, "runs": runs.get(no, []),
                        "tailok": tailok, "foreign": foreign,
                        "notes": text.count("Note: including file:") if s.msvc else 0})
         # classification by n2
@@ -166,6 +238,12 @@ def observe(sdir, steps, out, j, events, wantexit, exit, wantran=None):
             gotnote = s.note if (s.note in text) else ""
         events.append({"e": "xres", "step": s.name, "want": s.want, "got": got,
                        "wantnote": s.note, "gotnote": gotnote})
+    if console and not any(s.msvc for s in steps):
+        table = {s.name: {"want": s.want, "ntok": s.ntok, "tail": s.tail, "note": s.note if s.note.startswith("signal") or s.note == "interrupted" else "",
+                          "hide": bool(getattr(s, "hide", False)),
+                          "free": bool(s.depfile and s.want == "fail")} for s in steps}
+        events.append({"e": "xcon", "items": console_items(out, steps, verbose), "steps": table,
+                       "ran": sorted(ran), "exit": exit})
     events.append({"e": "xend", "exit": exit, "wantexit": wantexit, "j": j, "afterintr": after_intr,
                    "ran": sorted(ran), "wantran": sorted(wantran if wantran is not None else [s.name for s in steps])})
 
@@ -175,7 +253,7 @@ def scenario(n2, root, sid, steps, j, wantexit, events, pools=(), payloads=True,
     shutil.rmtree(sdir, ignore_errors=True)
     os.makedirs(os.path.join(sdir, "obs")); os.makedirs(os.path.join(sdir, "pay")); os.makedirs(os.path.join(sdir, "m"))
     for no, s in enumerate(steps):
-        if s.ntok or s.tail:
+        if True:
             data = token_payload(no, s.ntok, s.tail)
             # thirds: stdout, stderr, stdout (cut at token boundaries)
             a = (s.ntok // 3) * 16; b = (2 * s.ntok // 3) * 16
@@ -189,7 +267,7 @@ def scenario(n2, root, sid, steps, j, wantexit, events, pools=(), payloads=True,
         pre(sdir)
     events.append({"e": "xscn", "id": sid})
     rc, out = run_n2(n2, sdir, ["-j", str(j)] + list(args))
-    observe(sdir, steps, out, j, events, wantexit, rc, wantran)
+    observe(sdir, steps, out, j, events, wantexit, rc, wantran, verbose="-v" in args)
     return sdir, rc, out
 
 def emit(name):
@@ -212,6 +290,23 @@ def generate_and_run(tier, seed, wdir):
         ]
         scenario(n2, root, "basics", steps, 1, 0, ev)
         scenario(n2, root, "basics-j4", steps, 4, 0, ev)
+        # 1b. an output directory made for an earlier step and removed by a command in between is
+        #     made again for the next step that needs it
+        steps = [Step("g1", "echo a > stage/g1.txt", outs=["stage/g1.txt"]),
+                 Step("g2", "rm -rf stage; echo b > g2.out", ins=["stage/g1.txt"]),
+                 Step("g3", "echo c > stage/sub/g3.txt", outs=["stage/sub/g3.txt"], ins=["g2.out"])]
+        scenario(n2, root, "outdir-removed", steps, 1, 0, ev)
+        # 1c. the console protocol: messages, hidden output, missing description, -v
+        def console_steps():
+            return [Step("k1", emit("k1") + "echo x > k1.out", ntok=3),
+                    Step("k2", emit("k2") + "echo x > k2.out", ntok=3, hide=True),
+                    Step("k3", emit("k3") + "echo x > k3.out", ntok=2, tail=5, desc=""),
+                    Step("k4", "echo x > k4.out"),
+                    Step("k5", emit("k5") + "exit 3", ntok=4, hide=True, want="fail"),
+                    Step("k6", emit("k6") + "echo x > k6.out", ntok=1, ins=["k1.out", "k4.out"])]
+        for j in (1, 4):
+            scenario(n2, root, "console-j%d" % j, console_steps(), j, 1, ev)
+            scenario(n2, root, "console-v-j%d" % j, console_steps(), j, 1, ev, args=["-v"])
         # 2. output volumes around pipe and buffer boundaries, stdout/stderr mixed, many at once
         sizes = [0, 1, 15, 16, 17, 255, 256, 257, 4095, 4096, 4097, 65535, 65536, 65537, 200000]
         if tier == "thorough":
